@@ -294,6 +294,12 @@ def settle_temporaries(relpath: str, tree: ast.Module) -> Tuple[int, int]:
             all_uses = [n for n in ast.walk(fn) if isinstance(n, ast.Name) and n.id == v and isinstance(n.ctx, ast.Load)]
             if not all_uses or len(uses_later) != len(all_uses):
                 continue
+            # an accumulator (receiver of a method call, subscripted, container literal) is not a temporary
+            if isinstance(st.value, (ast.List, ast.Dict, ast.Set, ast.ListComp, ast.DictComp, ast.SetComp)) or (isinstance(st.value, ast.Call) and isinstance(st.value.func, ast.Name) and st.value.func.id in ("list", "dict", "set", "bytearray")):
+                continue
+            if any(isinstance(n, ast.Attribute) and isinstance(n.value, ast.Name) and n.value.id == v for n in ast.walk(fn)) and \
+                    any(isinstance(c, ast.Call) and isinstance(c.func, ast.Attribute) and isinstance(c.func.value, ast.Name) and c.func.value.id == v for c in ast.walk(fn)):
+                continue
             for s2 in later:
                 for node in ast.walk(s2):
                     for f, val in ast.iter_fields(node):
